@@ -7,6 +7,7 @@ size-changing host operation only as the property allows:  on a sealed export no
 [0, size) or with a size-changing mode, and no write that ends beyond the current size or goes through a descriptor in append mode
 (Linux: on an O_APPEND descriptor pwrite(2) appends whatever the offset, see pwrite(2) BUGS)."""
 from vx.api import Unit, Fn, Copy, Raw, Group
+from vx import flagsmodel
 
 PT = 'src/passthrough/mod.rs'
 PTS = 'src/passthrough/sync_io.rs'
@@ -14,6 +15,7 @@ UTIL = 'src/passthrough/util.rs'
 CFG = 'src/passthrough/config.rs'
 IMPL = 'impl<S: BitmapSlice + Send + Sync> PassthroughFs<S>'
 FSIMPL = 'impl<S: BitmapSlice + Send + Sync> FileSystem for PassthroughFs<S>'
+FSIMPL_G = IMPL
 
 SYS = ('every: host system call -> capability-guarded model in module `sys` (same name, same arguments)')
 # ManuallyDrop<T> is T whose destructor does not run (no effect on anything the contracts speak about): new(x) is x, *m is m
@@ -62,6 +64,12 @@ pub mod sys {
         requires host_falloc_ok(host_size(fd), mode, offset, len), // [falloc]
     { unimplemented!() }
     // fcntl(fd, F_SETFL, flags): the status flags of the descriptor become `flags` (fcntl(2))
+    // attribute changes that cannot change a size: no capability needed
+    #[verifier::external_body] pub fn fchmod(fd: i32, mode: u32) -> (r: i32) { unimplemented!() }
+    #[verifier::external_body] pub fn fchmodat(dirfd: i32, path: *const i8, mode: u32, flags: i32) -> (r: i32) { unimplemented!() }
+    #[verifier::external_body] pub fn fchownat(dirfd: i32, path: *const i8, uid: u32, gid: u32, flags: i32) -> (r: i32) { unimplemented!() }
+    #[verifier::external_body] pub fn futimens(fd: i32, times: *const libc::timespec) -> (r: i32) { unimplemented!() }
+    #[verifier::external_body] pub fn utimensat(dirfd: i32, path: *const i8, times: *const libc::timespec, flags: i32) -> (r: i32) { unimplemented!() }
     #[verifier::external_body] pub fn fcntl(fd: i32, cmd: i32, arg: u32) -> (r: i32)
         ensures cmd == 4 && r == 0 ==> host_append(fd) == (arg & 0o2000u32 != 0)
     { unimplemented!() }
@@ -91,6 +99,23 @@ pub trait ZeroCopyReader {
     ;
 }
 pub struct InodeData { pub inode: Inode, pub mode: u32 }
+#[verifier::external_body] pub struct InodeFile<'a> { _p: PhantomData<&'a u8> }
+impl<'a> AsRawFd for InodeFile<'a> {
+    uninterp spec fn sfd(&self) -> i32;
+    #[verifier::external_body] fn as_raw_fd(&self) -> (r: RawFd) { unimplemented!() }
+}
+impl InodeData { #[verifier::external_body] pub fn get_file(&self) -> (r: io::Result<InodeFile<'_>>) { unimplemented!() } }
+#[verifier::external_body] pub struct HandleMap { _p: u8 }
+impl HandleMap { #[verifier::external_body] pub fn get(&self, handle: Handle, inode: Inode) -> (r: io::Result<Arc<HandleData>>) { unimplemented!() } }
+#[verifier::external_body] pub struct CString { _p: u8 }
+#[verifier::external_body] #[derive(Debug)] pub struct NulError { _p: u8 }
+impl CString {
+    #[verifier::external_body] pub fn new(s: String) -> (r: core::result::Result<CString, NulError>) { unimplemented!() }
+    #[verifier::external_body] pub fn as_ptr(&self) -> (r: *const i8) { unimplemented!() }
+}
+pub assume_specification<T>[ <[T]>::as_ptr ](s: &[T]) -> (r: *const T);
+impl CStr { #[verifier::external_body] pub fn as_ptr(&self) -> (r: *const i8) { unimplemented!() } }
+impl io::Error { #[verifier::external_body] pub fn new_nul(kind: io::ErrorKind, e: NulError) -> (r: io::Error) { unimplemented!() } }
 #[verifier::external_body] pub struct InodeMap { _p: u8 }
 impl InodeMap { #[verifier::external_body] pub fn get(&self, inode: Inode) -> (r: io::Result<Arc<InodeData>>) { unimplemented!() } }
 impl InodeData {
@@ -100,13 +125,11 @@ impl InodeData {
     { unimplemented!() }
 }
 pub struct PassthroughFs<S> { pub cfg: Config, pub seal_size: AtomicBool, pub writeback: AtomicBool, pub killpriv_v2: AtomicBool, pub no_open: AtomicBool,
-    pub proc_self_fd: File, pub inode_map: InodeMap, pub phantom: PhantomData<S> }
+    pub proc_self_fd: File, pub inode_map: InodeMap, pub handle_map: HandleMap, pub phantom: PhantomData<S> }
 impl<S: BitmapSlice + Send + Sync> PassthroughFs<S> {
     pub open spec fn sealed(&self) -> bool { self.seal_size.cur() }
+    #[verifier::external_body] fn do_getattr(&self, inode: Inode, handle: Option<Handle>) -> (r: io::Result<(stat64, Duration)>) { unimplemented!() }
     #[verifier::external_body] fn get_data(&self, handle: Handle, inode: Inode, flags: i32) -> (r: io::Result<Arc<HandleData>>) { unimplemented!() }
-    #[verifier::external_body] fn get_writeback_open_flags(&self, flags: i32) -> (r: i32)
-        ensures r & 0o1000i32 == flags & 0o1000i32      // O_TRUNC untouched (proved on the real text in unit `pt` for O_CLOEXEC/O_DIRECT; here: assumed)
-    { unimplemented!() }
     // the arithmetic gate: contract proved on the real text in unit `seal` ([C18.gate.*])
     #[verifier::external_body]
     fn seal_size_check(&self, opcode: Opcode, file_size: u64, offset: u64, size: u64, mode: i32) -> (r: io::Result<()>)
@@ -115,6 +138,9 @@ impl<S: BitmapSlice + Send + Sync> PassthroughFs<S> {
                 (opcode is Write || (opcode is Fallocate && seal_keeps_size(mode))) && offset as int + size as int <= file_size as int ==> r is Ok,
     { unimplemented!() }
 }
+#[verifier::external_body] pub fn fmt_opaque() -> String { unimplemented!() }
+pub open spec fn hasf(w: u32, f: u32) -> bool { w & f == f }
+#[verifier::external_body] pub fn empty_cstr() -> (r: &'static CStr) { unimplemented!() }
 pub open spec fn seal_keeps_size(mode: i32) -> bool {
     let op = mode & !(1i32 | 64i32);     // FALLOC_FL_KEEP_SIZE | FALLOC_FL_UNSHARE_RANGE, from fallocate(2)
     op == 0 || op == 2 || op == 16       // allocate, FALLOC_FL_PUNCH_HOLE, FALLOC_FL_ZERO_RANGE
@@ -137,7 +163,14 @@ def unit(root='/repo'):
         Copy(CFG, r'pub enum CachePolicy\b', prefix='#[derive(Clone, Copy, PartialEq, Eq)]'),
         Copy(CFG, r'pub struct Config\b'),
         Raw(PRE),
+    ] + flagsmodel.items(root, 'src/abi/fuse_abi_linux.rs', 'SetattrValid') + [
         Group(IMPL + ' {', [
+            Fn(PT, IMPL, 'get_writeback_open_flags', props=['C18'],
+               ensures=['r & 0o1000i32 == flags & 0o1000i32 // [C18.open.wbflags] O_TRUNC is neither added nor hidden by the writeback adjustment'],
+               splices=[('^', 'after', '''proof {
+            assert(forall|f: i32| #![auto] ((f & !3i32) | 2i32) & 0o1000i32 == f & 0o1000i32) by (bit_vector);
+            assert(forall|f: i32| #![auto] (f & !0o2000i32) & 0o1000i32 == f & 0o1000i32) by (bit_vector);
+        }''')]),
             Fn(PTS, IMPL, 'check_fd_flags', props=['C18'], ret_name='res',
                body_resub=[(LIBC_CALLS, r'sys::\1(', SYS)],
                # after a successful check the descriptor is in append mode only if THIS request's flags say so
@@ -153,6 +186,19 @@ def unit(root='/repo'):
                # every re-open for I/O (OPEN, CREATE of an existing name, setattr by path, no_open mode): never with O_TRUNC on a sealed export
                requires=['forall|m: u32, f: i32| #[trigger] reopen_ok(m, f) <==> (self.sealed() ==> f & 0o1000i32 == 0) // [C18.open.trunc] truncating opens are refused on a sealed export'],
                splices=[('^', 'after', 'proof { assert(forall|a: i32| #![auto] (a | 0o2000000i32) & 0o1000i32 == a & 0o1000i32) by (bit_vector); assert(forall|a: i32| #![auto] (a & !0o40000i32) & 0o1000i32 == a & 0o1000i32) by (bit_vector); }')]),
+        ]),
+        Copy(PTS, r'enum Data\b'),        # R20: the local enum of setattr, hoisted to module level (deleted from the body below)
+        Group(FSIMPL_G + ' {', [
+            Fn(PTS, FSIMPL, 'setattr', props=['C18'], ret_name='res', canary=True,
+               body_resub=[(LIBC_CALLS, r'sys::\1(', SYS),
+                           (r'enum Data \{[^}]*\}', '', 'R20 local item hoisted to module level (Copy item `enum Data`)'),
+                           (r'\.map_err\(\|e\| io::Error::new\(io::ErrorKind::InvalidData, e\)\)', '.map_err(|e: NulError| -> (r: io::Error) { io::Error::new_nul(io::ErrorKind::InvalidData, e) })', 'every: io::Error::new over a NulError (opaque error value)'),
+                           (r'unsafe \{ CStr::from_bytes_with_nul_unchecked\(EMPTY_CSTR\) \}', 'empty_cstr()', 'the constant empty C string')],
+               sig_subst=[('attr: libc::stat64', 'attr: stat64'), ('io::Result<(libc::stat64, Duration)>', 'io::Result<(stat64, Duration)>')],
+               # "size-changing setattr": on a sealed export no truncate reaches the host
+               requires=['host_truncate_ok() <==> !self.sealed() // [C18.setattr.cap]',
+                         'forall|m: u32, f: i32| #[trigger] reopen_ok(m, f) <==> (self.sealed() ==> f & 0o1000i32 == 0)'],
+               ensures=['self.sealed() && hasf(valid.bits, 8u32) ==> res is Err // [C18.setattr.refused] a setattr carrying FATTR_SIZE (1<<3) is refused on a sealed export']),
         ]),
         Fn(UTIL, None, 'is_safe_inode', props=['C18']),
         Fn(UTIL, None, 'ebadf', props=['C18']),
